@@ -123,6 +123,57 @@ def search_mass_ratios(chk, sites):
             chk.search_case("loc_vs_sing_over_mass_ratios", worst <= tol, what=f"{label}: loc(b) - loc(a) != -int_a^b sing at Q2/m2 = {worst_at and worst_at['ratio']}", data=data, sample=data if worst_at and worst_at["ratio"] < 0.01 else None, nontrivial=True)
 
 
+def search_x_independence(chk, sites):
+    """a coefficient function is one x-independent distribution: the parts of the RSL a class builds
+    do not depend on the Bjorken x of the point it is built for (only on Q2, the masses, nf); classes
+    whose threshold decorator returns the empty RSL for some x are compared on the x where it is not"""
+    import importlib
+
+    done = set()
+    for s in sites:
+        if s["fam"] not in ("heavy", "intrinsic", "asy") or s["status"] != "rsl":
+            continue
+        key = (s["fam"], s["module"], s["cls"], s["order"])
+        if key in done:
+            continue
+        done.add(key)
+        cls = getattr(importlib.import_module(f"yadism.coefficient_functions.{s['fam']}.{s['module']}"), s["cls"])
+        label = "{}.{}.{}[{}]".format(*key)
+        worst, worst_at, compared = 0.0, None, 0
+        for ratio in (0.5, 2.0, 15.0):
+            m2 = 2.0
+            Q2 = ratio * m2
+            vals = {}
+            for xb in (0.02, 0.3, 0.7, 0.9):
+                try:
+                    rsl = callsites.instantiate(s["fam"], s["module"], cls, s["nf"], x=xb, Q2=Q2, m2=m2)[s["order"]]()
+                except Exception:
+                    continue
+                if rsl is None or (rsl.reg is None and rsl.sing is None and rsl.loc is None):
+                    continue
+                row = []
+                for part in ("reg", "sing", "loc"):
+                    f = getattr(rsl, part)
+                    for z in (0.25, 0.6):
+                        try:
+                            row.append(None if f is None else float(f(z, rsl.args[part])))
+                        except Exception:
+                            row.append(None)
+                vals[xb] = row
+            xs_ = sorted(vals)
+            for xb in xs_[1:]:
+                for j, (a, b) in enumerate(zip(vals[xs_[0]], vals[xb])):
+                    if a is None or b is None or not (np.isfinite(a) and np.isfinite(b)):
+                        continue
+                    compared += 1
+                    rel = abs(a - b) / max(abs(a), abs(b), 1e-300)
+                    if rel > worst:
+                        worst, worst_at = rel, dict(ratio=ratio, part=("reg", "sing", "loc")[j // 2], z=(0.25, 0.6)[j % 2], x_a=xs_[0], value_a=a, x_b=xb, value_b=b)
+        if compared:
+            data = dict(site=label, worst_relative_difference=worst, at=worst_at)
+            chk.search_case("parts_do_not_depend_on_bjorken_x", worst <= 1e-9, what=f"{label}: a part of the RSL depends on the Bjorken x of the point: {worst_at}", data=data, sample=data if s["fam"] == "intrinsic" and s["order"] == 0 else None, nontrivial=True)
+
+
 def search_finite(chk, sites, r):
     """all parts return finite real scalars on (0,1) for every admissible nf"""
     seen = set()
@@ -172,6 +223,7 @@ def run(tier):
     corr_kernels.run_kernels(chk, r, 25 if thorough else 3, report=rep)
     search_consistency(chk, sites)
     search_mass_ratios(chk, sites)
+    search_x_independence(chk, sites)
     search_finite(chk, sites, r)
     chk.assumptions += [
         "closures (heavy CC h_q, intrinsic asymptotics, asy F2 NC non-singlet) and the triple pqq0_2 (log z, Li2) are outside the normaliser's fragment: for them the property is checked numerically on the real functions (loc(x) - loc(0) + int_0^x sing at 4 x values, nf = 3..6), not proved",
